@@ -34,7 +34,7 @@ LEVEL = 'model_checking'
 RULE = ('auth: every configuration (3 user tables x dict / callable->dict / callable(user)->password x 2 realms x 2 methods x '
         '3 encrypt kinds) x every Authorization header of the grammar (Basic: 4 users x password candidates x 10 spellings; '
         'Digest: 4 users x password candidates x 5 header-realm/hashed-realm pairs x 2 hashed methods x 4 qop x 4 nc/cnonce '
-        'presences x 5 algorithms x 2 response styles, every non-empty subset of the 5 required fields missing, extra fields, '
+        'presences x 5 algorithms x 2 response styles, responses computed from the right / wrong passwords and from a degenerate A1 (the text None, nothing), every non-empty subset of the 5 required fields missing, extra fields, '
         'scheme spellings; raw malformed / unknown-scheme values) x 3 entry points, each on a fresh Request/Response; '
         'sess: every request sequence (length 2, thorough also 3) over 8 clients x 9 cookie kinds on a fresh Sessions component '
         'with scripted uuid; vhost: every gateway list x remote address x X-Forwarded-Host x Host x path on a fresh '
@@ -176,6 +176,9 @@ def _password_candidates(cfg, user, scheme):
         out.append(('right', plain[user] if scheme == 'basic' else stored[user]))
         out.append(('stored' if scheme == 'basic' else 'plain', stored[user] if scheme == 'basic' else plain[user]))
     out += [('wrong', 'wrong'), ('None', 'None'), ('empty', ''), ('user', user)]
+    if scheme == 'digest':
+        # responses computed from a degenerate A1 (what a verifier that loses A1 on some path would hash): the text of None, nothing
+        out += [('A1=None', A1_MARK + 'None'), ('A1=empty', A1_MARK)]
     seen, res = set(), []
     for k, t in out:
         if t not in seen:
@@ -191,8 +194,13 @@ def _h(alg, text):
     return f(text.encode('utf-8')).hexdigest()
 
 
+A1_MARK = '\x00A1='
+
+
 def rfc2617_response(user, realm, password, method, uri, nonce, nc, cnonce, qop, alg, style):
     a1 = '%s:%s:%s' % (user, realm, password)
+    if password.startswith(A1_MARK):
+        a1 = password[len(A1_MARK):]      # not a password: the whole of A1 is this text
     if alg == 'MD5-sess':
         a1 = '%s:%s:%s' % (_h(alg, a1), nonce, cnonce)
     a2 = '%s:%s' % (method, uri)
